@@ -255,8 +255,10 @@ impl ExpressionParser {
                                                 "index operator '[]' allows only one argument".to_string(),
                                             );
                                         }
+                                        // The identifier may be the end of a member chain ("a.b[1]").
+                                        stack.push(ExpressionParserItem::SToken(Token::Identifier(id)));
                                         Box::new(ExpressionIndex::new(
-                                            Box::new(ExpressionVariable::new(id.as_str())),
+                                            Self::pending_operand_to_expression(&mut stack)?,
                                             v.remove(0),
                                         ))
                                     }
@@ -329,6 +331,20 @@ impl ExpressionParser {
             Ok((stop, expressions.pop()))
         } else {
             Ok((stop, Some(Box::new(ExpressionSequence::new(expressions)))))
+        }
+    }
+
+    /// Folds the operand at the end of the stack (everything after the last operator, e.g. a
+    /// member chain like "a.b.c") into one expression and removes it from the stack.
+    fn pending_operand_to_expression(stack: &mut Vec<ExpressionParserItem>) -> Result<Box<dyn Expression>, String> {
+        let start = stack
+            .iter()
+            .rposition(|item| matches!(item, ExpressionParserItem::SToken(Token::Operator(_))))
+            .map_or(0, |p| p + 1);
+        let mut operand = stack.split_off(start);
+        match Self::stack_to_expression(&mut operand)? {
+            Some(expression) if operand.is_empty() => Ok(expression),
+            _ => Err("Failed to parse at '['".to_string()),
         }
     }
 
